@@ -171,6 +171,8 @@ def type_of(t):
             return 'float'
         if n == 'MAP':
             return 'list'
+        if n == 'STREAM':
+            return 'stream'
     if k == 'phi':
         a, b = type_of(t[2]), type_of(t[3])
         if a == b:
@@ -256,9 +258,19 @@ def length_of(t):
 # smart constructors for operators
 # ----------------------------------------------------------------------------
 
+_NARY = {'AND', 'OR', 'ADD', 'PT_ADD', 'MUL'}
+
+
 def op(name, *args):
     f = _SMART.get(name)
     if f is not None:
+        if name in _NARY and len(args) != 2:
+            if not args:
+                return ('op', name)
+            acc = args[0]
+            for a in args[1:]:
+                acc = f(acc, a)
+            return acc
         return f(*args)
     return ('op', name) + tuple(args)
 
@@ -654,6 +666,9 @@ def pt_add(a, b):
 
 def sec(p, compressed):
     compressed = truth(compressed)
+    # re-encoding a parsed 33-byte (hence compressed) encoding gives it back
+    if compressed == TRUE and is_op(p, 'PARSE_PT') and length_of(p[2]) == 33:
+        return p[2]
     if not is_const(compressed):
         return phi(compressed, ('op', 'SEC', p, TRUE), ('op', 'SEC', p, FALSE))
     return ('op', 'SEC', p, compressed)
@@ -841,8 +856,9 @@ def in_(x, container):
             return const(x[1] in container[1])
         except TypeError:
             return raise_('TypeError')
-    if is_op(container, 'VALUES') or is_op(container, 'KEYS'):
-        pass
+    if (is_op(container, 'VALUES') or is_op(container, 'KEYS')) and tag(container[2]) == 'dict':
+        items = [b if container[1] == 'VALUES' else a for a, b in container[2][1]]
+        return in_(x, ('list', tuple(items)))
     return ('op', 'IN', x, container)
 
 
